@@ -268,11 +268,83 @@ def run(res, tier, seed, shard, nshards):
     if shard == 2 % nshards:
         for i in range(12 if tier == "quick" else 200):
             two_connections_case(res, W, random.Random((seed, i).__repr__()), i)
+    # the same object connected a second time after its first connection was cut anywhere inside a frame or a message: what the
+    # second connection delivers is a function of the second server's bytes only
+    if shard == 1 % nshards:
+        def reuse():
+            for i in range(150 if tier == "quick" else 2500):
+                reused_object_case(res, W, random.Random((seed, "reuse", i).__repr__()), i)
+        H.in_sim(reuse, watchdog=600)
     if shard == 0:
         real_tls_coalescing(res, W)
 
 
 _pred_cache = {}
+
+
+def reused_object_case(res, W, rng, i):
+    fire = rng.random() < 0.25
+    w, conn, peer = H.connected_ws(timeout=1, ws_kwargs={"fire_cont_frame": True} if fire else None)
+    first = b"".join([R.encode(R.TEXT, b"one"), R.encode(R.TEXT, b"fr", fin=0), R.encode(R.PING, b"p"), R.encode(R.CONT, b"ag", fin=0),
+                      R.encode(R.CONT, b"ment"), R.encode(R.BINARY, bytes(range(200))), R.encode(R.TEXT, "h\u00e9".encode())])
+    k = i % (len(first) + 1) if i < 2 * len(first) else rng.randrange(0, len(first) + 1)
+    how = ["eof", "timeout-shutdown", "timeout-close", "reset"][i % 4]
+    if k:
+        conn.deliver(first[:k])
+    if how == "eof":
+        conn.peer_close()
+    elif how == "reset":
+        conn.peer_reset() if hasattr(conn, "peer_reset") else conn.peer_close()
+    calls1 = 0
+    for _ in range(12):
+        try:
+            w.recv_data_frame(True) if fire else w.recv()
+            calls1 += 1
+        except Exception:  # noqa
+            break
+    try:
+        if how == "timeout-shutdown":
+            w.shutdown()
+        elif how == "timeout-close":
+            w.close(timeout=0.1)
+    except Exception:  # noqa
+        pass
+    so2, conn2 = net.pair()
+    peer2 = H.HandshakePeer(conn2)
+    case = {"gen": "reused-object", "first_stream_cut_at": k, "of": len(first), "first_connection_ended_by": how, "fire_cont_frame": fire}
+    res.case(("reuse", k, how, fire), nontrivial=0 < k < len(first))
+    res.count("reused_object_cases")
+    try:
+        w.connect("ws://sim.test/again", socket=so2)
+    except Exception as x:  # noqa
+        res.violation("segmentation-dependent:unexpected-exception", f"connect() again after the first connection was cut at byte {k} ({how}): {type(x).__name__}: {x}", case, seg_kind="reused-object")
+        return
+    so2.settimeout(1)
+    second = [(R.TEXT, b"x1", 1), (R.TEXT, b"y", 0), (R.CONT, b"z", 1), (R.BINARY, b"\x00\xff", 1)]
+    conn2.deliver(b"".join(R.encode(op, pl, fin=fin) for op, pl, fin in second))
+    conn2.peer_close()
+    got = []
+    for _ in range(6):
+        try:
+            if fire:
+                op, fr = w.recv_data_frame(True)
+                got.append(("value", (op, bytes(fr.data), fr.fin)))
+            else:
+                got.append(("value", w.recv()))
+        except Exception as x:  # noqa
+            got.append(("exc", type(x).__name__))
+            break
+    if fire:
+        exp = [("value", (op, pl, fin)) for op, pl, fin in second] + [("exc", "WebSocketConnectionClosedException")]
+    else:
+        exp = [("value", "x1"), ("value", "yz"), ("value", b"\x00\xff"), ("exc", "WebSocketConnectionClosedException")]
+    if got != exp:
+        res.violation("segmentation-dependent:value-mismatch", f"the same object connected again after its first connection was cut at byte {k} of {len(first)} ({how}, "
+                      f"{calls1} receive calls had returned): the second connection delivered {got}, its server sent {exp}", case, seg_kind="reused-object")
+    try:
+        w.shutdown()
+    except Exception:  # noqa
+        pass
 
 
 def two_connections_case(res, W, rng, i):
